@@ -365,3 +365,4 @@ _addcbor("C03", ["rapid", "trees"])
 _addcbor("C05", ["trees", "concurrent-trees"])
 _addcbor("C13", ["logger"])
 _addcbor("C15", ["rapid", "concurrent"])
+_addcbor("C19", ["product", "sequences"])
